@@ -49,6 +49,10 @@ def chain_ids(n, length):
 
 
 def make_table(nch, idlen, resmode, serial0, icodes, models, apr, extras=False):
+    if isinstance(serial0, str):
+        # 'end99999' / 'end100000': the LAST atom carries exactly this serial (the limit itself, and the first number beyond it)
+        n = len(make_table(nch, idlen, resmode, 1, icodes, models, apr))
+        serial0 = int(serial0[3:]) - n + 1
     t = []
     serial = serial0
     ids = chain_ids(nch, idlen)
@@ -79,15 +83,20 @@ def cases(tier):
     if tier != "quick":
         yield dict(big="interleaved-99987-atoms-12-blocks", fmt="mmCIF")
     for nch, idlen, resmode, serial0, icodes, models, apr in itertools.product((1, 2, 3, 62, 63), (1, 2, 4, "mix-first", "mix-last"), ("small", "9999", "10000", "12345", "negative"),
-                                                                             (1, 99990, 100000), (False, True), (1, 2), (1, 2)):
+                                                                             (1, 99990, 100000, "end99999", "end100000"), (False, True), (1, 2), (1, 2)):
       for extras in (False, True):
+        if isinstance(serial0, str) and (nch >= 62 or extras or apr == 2):
+            continue
         if nch >= 62 and (extras or models == 2 or apr == 2 or icodes or str(idlen).startswith("mix")):
             continue  # the chain-count limit is independent of these dimensions; keeps the 62/63-chain tables few
         if str(idlen).startswith("mix") and nch == 1:
             continue
         yield dict(nch=nch, idlen=idlen, resmode=resmode, serial0=serial0, icodes=icodes, models=models, apr=apr, extras=extras, fmt="mmCIF")
-        if idlen in (1,) and resmode in ("small", "9999", "negative") and serial0 + nch * 2 * apr * models < 99990:
+        if idlen in (1,) and resmode in ("small", "9999", "negative") and not isinstance(serial0, str) and serial0 + nch * 2 * apr * models < 99990:
             yield dict(nch=nch, idlen=idlen, resmode=resmode, serial0=serial0, icodes=icodes, models=models, apr=apr, extras=extras, fmt="PDB")
+        if idlen in (1, 2) and nch <= 3 and not extras:
+            # the same atoms with label ids that differ from the author ids (two-character label_asym_id, own label_seq_id): only the author ids are written to PDB
+            yield dict(nch=nch, idlen=idlen, resmode=resmode, serial0=serial0, icodes=icodes, models=models, apr=apr, extras=extras, fmt="mmCIF", labels=True)
     yield dict(big="chain-10000-residues", fmt="mmCIF")
     yield dict(big="chain-10002-residues-with-icodes", fmt="mmCIF")
     if tier != "quick":
@@ -155,6 +164,8 @@ def tool_cases(tier):
             continue
         base = dict(nch=nch, idlen=idlen, resmode=resmode, serial0=serial0, icodes=icodes, models=models, apr=2, extras=False, fmt="mmCIF")
         yield dict(base, tool="splitter")
+        if idlen == 1 and nch == 2:
+            yield dict(base, tool="splitter", labels=True)
         if models == 1:
             yield dict(base, tool="unifier")
     for nch in (62, 63):
@@ -254,7 +265,7 @@ def run_case(case):
     if case["fmt"] == "PDB":
         r = observe(parser_v2.parse_pdb_atoms, enumio.emit_pdb(t))
     else:
-        r = observe(parser_v2.parse_cif_atoms, enumio.emit_cif(t))
+        r = observe(parser_v2.parse_cif_atoms, enumio.emit_cif(t, label_differs=bool(case.get("labels"))))
     if r[0] == "exc":
         return dict(nontrivial=True, outcome="parse-exc", violations=[viol("parse:" + r[1], "parser raised " + r[2])])
     df = r[1]
@@ -442,7 +453,7 @@ def run_tool(case, t, parser_v2, df_view):
     sd = scratch_dir()
     src = os.path.join(sd, "tool_in.cif")
     with open(src, "w") as f:
-        f.write(enumio.emit_cif(t))
+        f.write(enumio.emit_cif(t, label_differs=bool(case.get("labels"))))
     od = os.path.join(sd, "tool_out")
     shutil.rmtree(od, ignore_errors=True)
     if tool == "splitter":
